@@ -2,7 +2,9 @@
 from .. import env
 from ..apisnap import apisnap
 from ..core import CaseResult, Check
-from ..engines import tree
+from hypothesis import strategies as st
+
+from ..engines import concat, tree
 from ..rawsnap import file_sha, node_digests, rawsnap
 
 
@@ -17,7 +19,10 @@ class C09(Check):
         "differ: the target entity, the children / property-group parts of the parents it leaves or joins, nodes "
         "created or deleted by the call, type nodes appearing or disappearing; everything else must be identical. "
         "Then each resulting file is opened with mode r and r+, fully read through the API and closed: digests "
-        "must be identical and, for mode r, the file bytes (SHA-256) too. Non-trivial = a mutation applied while >=3 "
+        "must be identical and, for mode r, the file bytes (SHA-256) too. One program in four runs on drillhole groups "
+        "(concatenated storage, groups may share a name, ordinary objects next to them, re-open of the same Workspace "
+        "object): the decoded stored content of every group the operation does not address must be identical and all "
+        "other holes must read back their model values. Non-trivial = a mutation applied while >=3 "
         "other stored entities existed, one of them a sibling of the target's kind. Distinct = program hash."
     )
     assumptions = ["HDF5-internal layout is not compared in r+ mode (byte equality there is only counted)"]
@@ -30,12 +35,23 @@ class C09(Check):
         return cfg
 
     def strategy(self, tier):
-        return tree.program_strategy(self.cfg(tier))
+        trees = tree.program_strategy(self.cfg(tier))
+        holes = concat.program_strategy(max_ops=18 if tier == "quick" else 28).map(lambda p: {**p, "family": "concat"})
+        return st.one_of(trees, trees, trees, holes)
 
     def run_case(self, program):
         from geoh5py.workspace import Workspace
 
         res = CaseResult()
+        if program.get("family") == "concat":
+            # drillhole groups: an operation on one group must leave the stored content of every other group
+            # untouched, and every other hole must read back its model values (compared after every step)
+            run = concat.ConcatRun({**program, "check_every": True}, res, pid="C09")
+            stats = run.execute()
+            res.label("family:concat")
+            res.nontrivial = res.counters.get("untouched_groups_compared", 0) >= 1 and stats["ops"] >= 3 and not res.fails
+            return res
+        res.label("family:tree")
         run, stats = tree.run_tree(program, res, {"C09"})
         n_final = sum(len(w.nodes) - 1 for w in run.worlds)
         res.nontrivial = (res.counters.get("untouched_nodes_compared", 0) >= 3 and stats["effective"] >= 4
